@@ -47,3 +47,26 @@ Qed.
 
 (* event time of a program event *)
 Definition ev_time (e : ev) : N := match e with Enter _ t => t | Leave t => t | ForkChild => 0 end.
+
+(* ---------------------------------------------------------------- calls too deep for the depth field
+   record_ret_stack drops a frame whose depth does not fit the 10-bit field: [disk] keeps the storable
+   records only, and every one of them is read back unchanged. *)
+Lemma storable_lt r : storable r = true -> r_depth r < 1024.
+Proof. unfold storable, REC_DEPTH_WIDTH. change (2 ^ 10) with 1024. intro H. apply N.ltb_lt in H. exact H. Qed.
+
+Lemma disk_exact l : Forall (fun r => r_addr r < 281474976710656) l ->
+  disk l = map ideal (filter storable l).
+Proof.
+  unfold disk. induction 1 as [|r l Hr _ IH]; cbn [filter map]; [reflexivity|].
+  destruct (storable r) eqn:S; cbn [map]; [|exact IH].
+  rewrite IH. f_equal. apply seen_exact; [apply storable_lt; exact S|exact Hr].
+Qed.
+
+(* nothing is lost below the field's limit *)
+Lemma disk_all l : Forall (fun r => r_depth r < 1024) l -> filter storable l = l.
+Proof.
+  induction 1 as [|r l Hr _ IH]; cbn [filter]; [reflexivity|].
+  assert (S : storable r = true).
+  { unfold storable, REC_DEPTH_WIDTH. change (2 ^ 10) with 1024. apply N.ltb_lt. exact Hr. }
+  rewrite S, IH. reflexivity.
+Qed.
